@@ -136,7 +136,7 @@ class Patched:
     """numpy.random.{random,random_sample,rand,uniform} all answer from the script (so a harmless change
     of the drawing function does not lose the binding)."""
 
-    NAMES = ("random", "random_sample", "rand")
+    NAMES = ("random", "random_sample", "rand", "ranf", "sample", "uniform")
 
     def __init__(self, np, u0):
         self.np, self.script, self.saved = np, ScriptedRandom(np, u0), {}
@@ -147,6 +147,16 @@ class Patched:
         self.np.random.random = self.script
         self.np.random.random_sample = self.script
         self.np.random.rand = lambda *shape: self.script(shape if shape else None)
+        self.np.random.ranf = self.script
+        self.np.random.sample = self.script
+        real_uniform = self.saved["uniform"]
+
+        def uniform(low=0.0, high=1.0, size=None):
+            if low == 0.0 and high == 1.0:
+                return self.script(size)
+            return real_uniform(low, high, size)
+
+        self.np.random.uniform = uniform
         return self.script
 
     def __exit__(self, *exc):
